@@ -616,7 +616,8 @@ def unit_kani(u, tier):
         ob = {"id": f"{name}/{h['name']}", "kind": "harness", "fn": h.get("fn", h["name"]), "extracted": True,
               "clause": h.get("claim", ""), "level": h.get("level", "B"), "bound": h.get("bound"),
               "checks_total": p["checks_total"], "covers": [p["covers_sat"], p["covers_total"]],
-              "solver_s": p["time"], "wall_s": round(p["wall"], 1), "cmd": p["cmd"], "stubs": p["stubs"], "detail": []}
+              "solver_s": p["time"], "wall_s": round(p["wall"], 1), "cmd": p["cmd"], "stubs": p["stubs"], "detail": [],
+              "props": h.get("props")}
         if p["timeout"]:
             ob["status"] = "undecided"; ob["detail"].append({"kind": "timeout", "msg": f"timeout after {h.get('timeout', 300)}s"})
         elif p["verdict"] is None:
@@ -754,6 +755,8 @@ def check(prop, tier):
         for ob in r["obligations"]:
             if mode != "all" and ob["kind"] == "post":
                 continue  # functional clauses are reported under the functional property
+            if ob.get("props") and prop not in ob["props"]:
+                continue  # harness restricted to some of the unit's properties
             if ob["status"] == "discharged":
                 (proved if ob.get("level", "P") == "P" else bounded).append(ob)
             elif ob["status"] == "undecided":
